@@ -15,7 +15,7 @@ CLAIMS = {
    note="Trusted: clang 14 parser/Sema, class-local call resolution by name, tables/c01.json (exempt sites, one reason each). Throwing paths carry no obligation.",
    tech="static analysis: structured path rules with class-local may/must effect summaries (E2/E2g), guard-dominance rules, finite predicate enumeration of rec_equal", ref="DESIGN.md 4/C01"),
  "C10": dict(
-   text="Static decision of arithmetic-safety and refusal clauses of the coefficient-field classes: a symbolic range interpreter (linear forms over the modulus and the operands, exact Fourier-Motzkin, Houdini loop invariants) proves for every modulus in the stated range and all reduced operands that no intermediate of _add/_subtract/_multiply, the fused operations and get_value/_get_value (element types unsigned int, unsigned short, unsigned long; int, long, short and unsigned arguments) wraps harmfully, overflows or converts a possibly negative value to unsigned before % or a comparison, and that every result is again in [0, modulus); run-time setters refuse 0, 1 and composites and do not depend on the previous state; the compile-time primality test is decided by compile-fail witnesses and its sibling copies must agree. Extended-Euclid inverses, the inverse-table loop bounds and GMP multi-field values are not decided.",
+   text="Static decision of arithmetic-safety and refusal clauses of the coefficient-field classes: a symbolic range interpreter (linear forms over the modulus and the operands, exact Fourier-Motzkin, Houdini loop invariants) proves for every modulus in the stated range and all reduced operands that no intermediate of _add/_subtract/_multiply, the fused operations and get_value/_get_value (element types unsigned int, unsigned short, unsigned long; int, long, short and unsigned arguments) wraps harmfully, overflows or converts a possibly negative value to unsigned before % or a comparison, and that every result is again in [0, modulus); run-time setters refuse 0, 1 and composites and do not depend on the previous state; the compile-time primality test is decided by compile-fail witnesses and its sibling copies must agree. All seven partial-inverse implementations take the gcd of the element with the sub-product parameter, compare the gcd with it to decide 'invertible nowhere' and divide it by the gcd (a gcd with the whole product makes the quotient inexact). Extended-Euclid inverses, the inverse-table loop bounds and GMP multi-field values are not decided.",
    note="Trusted: clang 14 Sema (implicit conversions as in the AST), contracts in tables/c10.json (each helper contract is verified on the helper itself), operands reduced as the property states. Documented overflow-unsafe fused operations are listed in known_findings.json.",
    tech="abstract interpretation (linear forms + Fourier-Motzkin) over the clang AST, path rules, compile-fail witnesses", ref="DESIGN.md 4/C10"),
  "C03": dict(
